@@ -264,6 +264,14 @@ func ScanRepositoryUsingGraph(
 	}
 	progressMeter.Done()
 
+	// Make sure that the object iterator has nothing more to say and
+	// that its commands finished successfully:
+	if _, ok, err := objectIter.Next(); err != nil {
+		return HistorySize{}, err
+	} else if ok {
+		return HistorySize{}, errors.New("more objects read than expected")
+	}
+
 	err = <-errChan
 	if err != nil {
 		return HistorySize{}, err
